@@ -361,17 +361,19 @@ CHECKS["C14"] = {
 CAT_ROWS = ["skip>htons", "setattr>delay>idem", "idem", "skip", "htons", "delay", "setattr", "setflowdef", "probe_uref", "match_attr", "null", "dup", "time_limit", "genaux",
             "buffer", "rate_limit", "qsink", "qsink_noloop", "agg", "chunk", "ts_sync", "ts_check", "ts_align", "ts_psi_split", "ts_split",
             "burst", "convert_to_block", "discard_blocking", "dump", "noclock", "nodemux", "setrap"]
-# second batch of generic rows (pipex_cat also has the rows block_to_sound, rtp_pcm_unpack, m3u_reader, row_join, even, trickplay and stream_switcher:
-# they are not listed because the unchanged tree violates C01/C04 on them, see the findings)
+# second batch of generic rows (block_to_sound, rtp_pcm_unpack, m3u_reader, row_join, even, trickplay and stream_switcher were listed once the
+# defects they exposed on the original tree had been repaired, see known_findings.txt)
 CAT_GENERIC2 = ("dejitter", "multicat_probe", "aes_decrypt", "aes_decrypt_clear", "dtsdi", "ts_pidf", "ts_pcr_interpolator", "ts_tstd", "ts_decaps", "ts_pes_decaps",
                 "ts_psi_merge", "telx_framer", "s302_framer", "opus_framer", "void_source", "sine_wave_source", "separate_fields", "row_split", "ntsc_prepend",
                 "rtp_pcm_pack", "audio_copy", "crop", "video_blank", "audio_blank", "subpic_schedule",
-                "dejitter_sub", "subpic_schedule_sub", "play", "ts_psi_join")
+                "dejitter_sub", "subpic_schedule_sub", "play", "ts_psi_join",
+                "block_to_sound", "rtp_pcm_unpack", "m3u_reader", "row_join", "even", "trickplay", "stream_switcher")
 CAT_ROWS += list(CAT_GENERIC2)
 # generic rows whose depth differs from (quick 4, thorough 5): input-subpipe rows need one more step (allocate the subpipe); ntsc_prepend moves 720x480 pictures
-CAT_GENERIC_DEPTH = {"dejitter_sub": (5, 6), "subpic_schedule_sub": (5, 6), "play": (5, 6), "ts_psi_join": (5, 6), "ntsc_prepend": (4, 4)}
-# rows left out of C20: ts_tstd (a refused set_flow_def changes the octet rate in use, see the findings); the sources start on any control command, a getter included
-C20_EXCLUDED = ("ts_tstd", "void_source", "sine_wave_source")
+CAT_GENERIC_DEPTH = {"dejitter_sub": (5, 6), "subpic_schedule_sub": (5, 6), "play": (5, 6), "ts_psi_join": (5, 6), "ntsc_prepend": (4, 4),
+                     "even": (5, 6), "trickplay": (5, 6), "stream_switcher": (6, 6)}
+# rows left out of C20: the sources start on any control command, a getter included
+C20_EXCLUDED = ("void_source", "sine_wave_source")
 CAT_HEAVY = {"buffer": 1, "setattr>delay>idem": 1, "ts_split": 1, "ts_psi_split": 1}
 
 C20_HEAVY = {"rate_limit": 1, "ts_sync": 1, "time_limit": 1, "qsink": 1, "skip>htons": 1, "buffer": 0, "skip": 1, "dup": 1, "genaux": 1, "delay": 1, "setattr": 1, "setflowdef": 1, "match_attr": 1}   # two instances per history
